@@ -44,7 +44,7 @@ def check(prog, res, tier):
 
     def loop_head(it, st, pre, gen):
         # candidate invariant for string accumulators of the packer: len <= 999
-        if it.stack and it.stack[-1] == pfi.short:
+        if it.stack and pfi.short in it.stack:        # the packer itself or a helper it calls (collect / emit phases)
             for k, g in gen.items():
                 if isinstance(g, SeqV) and g.kind == 'str' and k[0] in ('local', 'ljoin'):
                     it.store.assume_ge0(Lin.const(CAP) - g.length())
@@ -196,8 +196,10 @@ def check(prog, res, tier):
         for e in p.events:
             if e.kind == 'ext-call' and e.data['callee'] == 'sorted' and e.under(pfi.short):
                 r = e.data['result']
-                if not (isinstance(r, ListV) and r.order == 'asc'):
-                    fails.append(definite('PDS keys are not visited in ascending order', e.node))
+                if isinstance(r, ListV) and r.order == 'desc':
+                    fails.append(definite('PDS keys are visited in descending order', e.node))
+                elif not (isinstance(r, ListV) and r.order == 'asc'):
+                    fails.append(soft('the order produced by sorted(..., key=...) is not followed', e.node))
         if not any(e.kind == 'ext-call' and e.data['callee'] == 'sorted' and e.under(pfi.short) for e in p.events):
             fails.append(definite('PDS keys are not sorted before packing'))
         return fails
